@@ -13,7 +13,10 @@ KINDS = ["soc", "soi", "toc", "toi", "cat"]
 def file_text(inst):
     kind, m, orders = inst["kind"], inst["m"], inst["orders"]
     nv = sum(mult for _, mult in orders)
-    lines = [f"# FILE NAME: t.{kind}", "# TITLE: generated", f"# DATA TYPE: {kind}", f"# NUMBER ALTERNATIVES: {m}", f"# NUMBER VOTERS: {nv}"]
+    lines = [f"# FILE NAME: t.{kind}", "# TITLE: generated", f"# DATA TYPE: {kind}", f"# NUMBER ALTERNATIVES: {m}"]
+    if not inst.get("no_voter_header"):
+        # the voter count is redundant metadata (it is the sum of the multiplicities); some files are written without it
+        lines.append(f"# NUMBER VOTERS: {nv}")
     if kind == "cat":
         ncat = inst["ncat"]
         lines += [f"# NUMBER UNIQUE PREFERENCES: {len(orders)}", f"# NUMBER CATEGORIES: {ncat}"]
@@ -122,6 +125,8 @@ def gen_instance(R):
     inst = {"kind": kind, "m": m, "orders": orders}
     if kind == "cat":
         inst["ncat"] = ncat
+    if R.rng.random() < 0.15:
+        inst["no_voter_header"] = True
     return inst
 
 
